@@ -117,8 +117,9 @@ def _witnesses(binary, prop):
 
 def run(ctx):
     prop = ctx.prop
-    lean = vlib.lean_check("core", THEOREMS.get(prop, []), thorough=ctx.thorough,
-                           checker_modules=["Core.Props." + prop] if THEOREMS.get(prop) else None)
+    ent = THEOREMS.get(prop, {"modules": [], "theorems": []})
+    lean = vlib.lean_check("core", ent["theorems"], thorough=ctx.thorough, checker_modules=ent["modules"] or None,
+                           audit_file=f"audit/{prop}.lean", build_targets=["Core", "rudriver"] + ent["modules"])
     failures = vlib.lean_failures(prop, lean)
     ctx.log(f"lean: built={lean['built']} ok={lean['ok']} theorems={len(lean['theorems'])}")
     extra = []
@@ -235,5 +236,6 @@ def replay(ctx, body):
                 res.append(vlib.failure("prop" if f["kind"] == "prop" else "diff", _signature(prop, f), f["text"][:700], rp, f["kind"] == "prop"))
         return res
     # proof obligations: re-check the Lean side
-    lean = vlib.lean_check("core", THEOREMS.get(prop, []))
+    ent = THEOREMS.get(prop, {"modules": [], "theorems": []})
+    lean = vlib.lean_check("core", ent["theorems"], audit_file=f"audit/{prop}.lean", build_targets=["Core", "rudriver"] + ent["modules"])
     return vlib.lean_failures(prop, lean)
